@@ -212,7 +212,11 @@ def get_godambe(func_ex, grid_pts, all_boot, p0, data, eps, log=False,
     # Cache evaluations of the frequency spectrum inside our hessian/J 
     # evaluation function
     def func(params, data, theta_adjust=1):
-        key = (func_ex.__hash__(), tuple(params), tuple(ns), tuple(grid_pts))
+        # Key on the function object itself, not its hash. The hash of a
+        # function is derived from its id, which Python may reuse for another
+        # function once this one has been garbage-collected (func_ex is often a
+        # temporary closure), leading to stale cache hits.
+        key = (func_ex, tuple(params), tuple(ns), tuple(grid_pts))
         if key not in cache:
             cache[key] = func_ex(params, ns, grid_pts)
         # theta_adjust deals with bootstraps that need  different thetas
